@@ -1,12 +1,20 @@
 #!/bin/bash
-# usage: benign_all.sh — every patch under /verif/benign x every quick check, in the private slot BEN (so /repo is untouched).
-# Every check must exit 0. Output: /verif/.build/benign_all.log (only non-zero exits are listed under each patch).
-cd /verif; export SLOT=BEN SHOW=3
-tools/setup_agent.sh BEN >/dev/null
+# usage: benign_all.sh — every patch under /verif/benign x every quick check, in private slots (so /repo is untouched),
+# three slots in parallel. Every check must exit 0. Output: /verif/.build/benign_all.log (only non-zero exits are listed
+# under each patch).
+cd /verif; export SHOW=3
 : > .build/benign_all.log
-for d in benign/*/; do
-  n=$(basename $d)
-  echo "#### $n" >> .build/benign_all.log
-  tools/try_private.sh /verif/benign/$n/patch.diff C01 C02 C03 C04 C05 C06 C07 C08 C09 C10 C11 C12 C13 C14 C15 C16 C17 C18 C19 2>&1 | grep -v "exit=0 violation_lines=0" >> .build/benign_all.log
-done
+ls -d benign/*/ | xargs -n1 basename > .build/benign_list.txt
+run_slot() {
+  slot=$1; k=$2
+  tools/setup_agent.sh $slot >/dev/null
+  awk -v k=$k 'NR%3==k' .build/benign_list.txt | while read n; do
+    out=$(SLOT=$slot tools/try_private.sh /verif/benign/$n/patch.diff C01 C02 C03 C04 C05 C06 C07 C08 C09 C10 C11 C12 C13 C14 C15 C16 C17 C18 C19 2>&1 | grep -v "exit=0 violation_lines=0")
+    { echo "#### $n"; [ -n "$out" ] && echo "$out"; } >> .build/benign_all.log
+  done
+}
+run_slot BEN 0 &
+run_slot PRIV2 1 &
+run_slot MATRIX 2 &
+wait
 echo "#### done" >> .build/benign_all.log
